@@ -12,3 +12,4 @@ import BV.C16.TaprootLemmas
 import BV.C16.PubKeyLemmas
 import BV.C16.Base58AlgoLemmas
 import BV.C16.MainnetLemmas
+import BV.C16.ExtraLemmas
